@@ -7,9 +7,10 @@ import SevenZ.Driver.Reader
 import SevenZ.Driver.Spec
 import SevenZ.Driver.Listing
 import SevenZ.Driver.Aes
+import SevenZ.Driver.Crc
 open SevenZ.Driver
 
-def handlers : List (String → List String → Option String) := [primHandler, headerHandler, pathHandler, decHandler, readerHandler, specHandler, listingHandler, aesHandler]
+def handlers : List (String → List String → Option String) := [primHandler, headerHandler, pathHandler, decHandler, readerHandler, specHandler, listingHandler, aesHandler, crcHandler]
 
 def step (line : String) : String :=
   match (line.trimAscii.toString.splitOn " ").filter (· ≠ "") with
